@@ -11,6 +11,7 @@ CONSTANTS
   OneLine = 120
   UnionLine = 80
   LowerNames <- LowerNamesMC
+  LongNamesLower = TRUE
 INIT Init
 NEXT Next
 INVARIANTS Emit Laid2OK
